@@ -140,6 +140,7 @@ fn c05(tier: &str, seed: u64) -> GridCheck {
     let mut c = base_check("C05", "C05", "fault_enumeration");
     let count = if tier == "quick" { 320 } else { 3200 };
     c.progs = sample(seed, 0x0500, count, &c05_cfg(), &|i| Some(TRY6[i % 6]));
+    sprinkle_joiners(&mut c.progs, 5);
     c.budget = if tier == "quick" { 256 } else { 1024 };
     c.rule = "programs: random grid programs under the six try macro names, Option and Result (sync), Result (async), with recovery operators after fail points; faults: every subset of the program's decision points (initial values and W-returning callbacks) is made to fail when the program has <= log2(budget) of them (fewest failures first), otherwise sampled subsets biased to 1-3 failures; oracle: the macro's value equals the model's (all succeed => Some/Ok(tuple); else the value of the lowest-numbered branch failing in the earliest failing step; async: of some branch failing in that step), payload hash included. Non-trivial = >= 2 failing decision points, or one failure in a non-final step after a lower-numbered branch has finished".to_string();
     c
@@ -155,6 +156,7 @@ fn c06(tier: &str, seed: u64) -> GridCheck {
     cfg.depth = (2, 4);
     let count = if tier == "quick" { 320 } else { 3200 };
     c.progs = sample(seed, 0x0600, count, &cfg, &|i| Some(TRY6[i % 6]));
+    sprinkle_joiners(&mut c.progs, 5);
     c.budget = if tier == "quick" { 256 } else { 1024 };
     c.rule = "programs as C05 plus block captures, let-snapshots and map/and_then handlers in later steps; faults as C05; oracle over the event log: after the failing step no event of a later step (operand, callback, capture), no handler call; sync/thread-spawning: every active branch of the failing step has its complete callback sequence. Non-trivial = the failing step is not the last step of the program".to_string();
     c
@@ -176,6 +178,7 @@ fn c10(tier: &str, seed: u64) -> GridCheck {
     cfg.handler_block = 0.6;
     let count = if tier == "quick" { 480 } else { 4800 };
     c.progs = sample(seed, 0x1000, count, &cfg, &|i| Some(ALL12[i % 12]));
+    sprinkle_joiners(&mut c.progs, 5);
     c.budget = if tier == "quick" { 32 } else { 128 };
     c.features = vec!["clonetok"];
     c.rule = "programs: random grid programs under all 12 macro names with all grid operators, wrappers, steps, block captures, handlers (block handlers log their own evaluation); values are clone-counting drop-counting tokens; inputs: the all-succeed plan plus sampled/enumerated failure plans; oracle: the multiset of all evaluation events (initial value, operand expression, callback call, capture, snapshot, handler expression, handler call) equals the model's, per-branch callback order equals the model's, clone counter == 0, live tokens == 0 after the result is dropped. Non-trivial = program contains a `??` and a block capture".to_string();
@@ -230,6 +233,7 @@ fn c12(tier: &str, seed: u64) -> GridCheck {
     cfg.handler = 0.2;
     let count = if tier == "quick" { 480 } else { 4800 };
     c.progs = sample(seed, 0x1200, count, &cfg, &|i| Some(KINDS8[i % 8]));
+    sprinkle_joiners(&mut c.progs, 5);
     c.budget = if tier == "quick" { 16 } else { 64 };
     c.rule = "programs: random grid programs under the eight macro kinds, random subsets of branches named with let / let mut, block captures in steps >= 1 of any branch snapshot random named branches (also ones that have finished); oracle: each snapshot equals the named branch's most recent step result (wrapped), and the macro's value equals the model's (which ignores names). Non-trivial = a snapshot taken in a step >= 1".to_string();
     c
@@ -248,6 +252,7 @@ fn c13(tier: &str, seed: u64) -> GridCheck {
     cfg.recover = 0.5;
     let count = if tier == "quick" { 360 } else { 3600 };
     c.progs = sample(seed, 0x1300, count, &cfg, &|i| Some(ALL12[i % 12]));
+    sprinkle_joiners(&mut c.progs, 5);
     c.budget = if tier == "quick" { 64 } else { 512 };
     c.rule = "programs: random grid programs under all 12 macro names, each with the handler kind legal for it (map / and_then for try, then otherwise) at a random position among 1-5 branches; inputs: enumerated / sampled failure plans (handler outcome included); oracle: handler-call events (exactly once with the unwrapped values in branch order iff all branches succeeded, `then` always once with the raw values), the handler's future is run in async macros, the macro's value is the model's. Non-trivial = handler not in last position, or a failing plan".to_string();
     c
@@ -266,6 +271,7 @@ fn c03(tier: &str, seed: u64) -> GridCheck {
     cfg.equal_depths = 0.3;
     let count = if tier == "quick" { 320 } else { 4000 };
     c.progs = sample(seed, 0x0300, count, &cfg, &|i| Some(KINDS8[i % 8]));
+    sprinkle_joiners(&mut c.progs, 5);
     c.budget = if tier == "quick" { 24 } else { 120 };
     c.rule = "programs: random grid programs under the eight macro kinds, unequal depths in most, `~` at generated positions. Schedules: thread-spawning macros - one gated callback per (branch, step) cell (first / middle / last callback), per step a release permutation of the active branches (all combinations when within the budget, proptest-shuffled otherwise); async / task-spawning macros - every future-returning callback awaits a gate, wake-up orders enumerated systematically (odometer over choice points) then randomised with batches and spurious polls; sequential macros - program order. Oracle: while any branch is still blocked in step k no event of a later step exists and the macro has not returned (checked by the controller at rendezvous and before the last release); over the final log every event of step k precedes every event of step k+1. A run is one (program, schedule); non-trivial = >=2 branches, >=2 steps, unequal depths or a non-identity order".to_string();
     c
@@ -451,6 +457,7 @@ fn c18(tier: &str, seed: u64) -> GridCheck {
     cfg.handler_block = 0.5;
     let count = if tier == "quick" { 192 } else { 1920 };
     c.progs = sample(seed, 0x1800, count, &cfg, &|i| Some(ALL12[i % 12]));
+    sprinkle_joiners(&mut c.progs, 5);
     c.budget = if tier == "quick" { 60 } else { 300 };
     c.rule = "programs: random grid programs under all 12 macro names; faults: every single evaluation event of the program under the all-succeed plan (initial value, operand expression, callback call, block capture, handler expression, handler call) in turn panics with a typed payload; then, except for the async try macros (which drop the siblings of a failing branch half way), the evaluation events under one plan with a failing callback, handler and capture positions first. Sync / thread-spawning macros: each injected evaluation runs in a child process of the generated binary under catch_unwind; async macros: deterministic executor with gated callbacks and a wake-up order derived from the position, each poll under catch_unwind. Thread-spawning macros: the later sibling threads of the panicking branch are parked in their first callback of the step and released only when the caller has got control back. Oracle: the panic is observed by the caller (macro expression / poll panics); no event of a later step than the injected one exists; threads: the caller returns while the later siblings are still parked (blocked = still not back after 3 s and, in a confirming second run, after 12 s); async: once the panic has been raised the future panics at its next poll without any further pending point being opened, and is never left pending with every gate open and no wake-up outstanding. A run is one (program, injection point); non-trivial = injection in a multi-branch step of a spawn variant, or in a step > 0".to_string();
     c.assumptions.push("sync macros: a child that does not return within 40 s is reported as inconclusive (exit 2), not as a violation".to_string());
